@@ -488,28 +488,6 @@ func c15FuncByName(f *ast.File, name string) *ast.FuncDecl {
 
 func genC15() {
 	fset, f := parseFile("pkg/cluster/redis_election.go")
-	var sb strings.Builder
-	sb.WriteString(header)
-	sb.WriteString("import GunYu.Model.LuaAst\nnamespace GunYu.Gen\nopen GunYu.Lua\n\n")
-	for _, it := range []struct{ method, def string }{{"Campaign", "campaignScript"}, {"Resign", "resignScript"}} {
-		fd := c15Method(f, "redisElection", it.method)
-		if fd == nil {
-			die("redisElection.%s not found", it.method)
-		}
-		what := "pkg/cluster/redis_election.go:" + it.method
-		text, args := c15Script(fset, fd, what)
-		lean, vars := c15ParseLua(text, what+" lua")
-		var names []string
-		for i, v := range vars {
-			names = append(names, fmt.Sprintf("%d=%s", i, v))
-		}
-		sb.WriteString(fmt.Sprintf("/-- Lua script of `redisElection.%s`; variables: %s -/\n", it.method, strings.Join(names, " ")))
-		sb.WriteString("def " + it.def + " : Blk :=\n  " + lean + "\n\n")
-		facts["lease_eval_args_"+strings.ToLower(it.method)] = args
-	}
-	sb.WriteString("end GunYu.Gen\n")
-	writeIfChanged(filepath.Join(*out, "LeaseScripts.lean"), sb.String())
-
 	// glue facts: Renew and Leader bodies (printed, whitespace-normalised)
 	for _, m := range []string{"Renew", "Leader"} {
 		fd := c15Method(f, "redisElection", m)
@@ -593,4 +571,27 @@ func genC15() {
 		return true
 	})
 	facts["lease_runcluster_order"] = order
+
+	// the two scripts last: if one cannot be translated the facts above are still recorded
+	var sb strings.Builder
+	sb.WriteString(header)
+	sb.WriteString("import GunYu.Model.LuaAst\nnamespace GunYu.Gen\nopen GunYu.Lua\n\n")
+	for _, it := range []struct{ method, def string }{{"Campaign", "campaignScript"}, {"Resign", "resignScript"}} {
+		fd := c15Method(f, "redisElection", it.method)
+		if fd == nil {
+			die("redisElection.%s not found", it.method)
+		}
+		what := "pkg/cluster/redis_election.go:" + it.method
+		text, args := c15Script(fset, fd, what)
+		lean, vars := c15ParseLua(text, what+" lua")
+		var names []string
+		for i, v := range vars {
+			names = append(names, fmt.Sprintf("%d=%s", i, v))
+		}
+		sb.WriteString(fmt.Sprintf("/-- Lua script of `redisElection.%s`; variables: %s -/\n", it.method, strings.Join(names, " ")))
+		sb.WriteString("def " + it.def + " : Blk :=\n  " + lean + "\n\n")
+		facts["lease_eval_args_"+strings.ToLower(it.method)] = args
+	}
+	sb.WriteString("end GunYu.Gen\n")
+	writeIfChanged(filepath.Join(*out, "LeaseScripts.lean"), sb.String())
 }
